@@ -139,3 +139,43 @@ pub fn reactions(w: &World, rec: &OpRecord) -> Vec<Reaction> {
     }
     out
 }
+
+use crate::script::MacCase;
+use simcore::Tier;
+use std::collections::BTreeSet;
+
+/// One run in five of a MAC-world property borrows the generator of another MAC-world property (all use the
+/// same case type). The foreign generator is called with a run index far beyond its systematic part.
+pub fn cross_generate(own: &str, sources: &[&str], seed: u64, run: u64, tier: Tier, avoid: &BTreeSet<String>) -> Option<MacCase> {
+    if run % 5 != 4 || sources.is_empty() {
+        return None;
+    }
+    let src = sources[((run / 5) % sources.len() as u64) as usize];
+    let frun = run | (1 << 40);
+    // the foreign stream is decorrelated from the foreign property's own batch by mixing in the consumer
+    let fseed = simcore::mix(seed, own, 0x5eed);
+    let mut c = match src {
+        "C04" => c04::C04.own_generate(fseed, frun, tier, avoid),
+        "C05" => c05::C05.own_generate(fseed, frun, tier, avoid),
+        "C06" => c06::C06.own_generate(fseed, frun, tier, avoid),
+        "C07" => c07::C07.own_generate(fseed, frun, tier, avoid),
+        "C08" => c08::C08.own_generate(fseed, frun, tier, avoid),
+        "C09" => c09::C09.own_generate(fseed, frun, tier, avoid),
+        "C10" => c10::C10.own_generate(fseed, frun, tier, avoid),
+        "C11" => c11::C11.own_generate(fseed, frun, tier, avoid),
+        "C12" => c12::C12.own_generate(fseed, frun, tier, avoid),
+        _ => return None,
+    };
+    // `knob` is private to each property (C09: enumerate RNG outcomes)
+    c.knob = if own == "C09" && (tier == Tier::Thorough || run % 8 == 0) { 1 } else { 0 };
+    Some(c)
+}
+
+/// The data rate the application set itself between TX and RX1 of this op (nb front-end fault kind), if the call was made.
+pub fn app_set_dr_mid(w: &World, rec: &OpRecord) -> Option<u8> {
+    let env = w.env.borrow();
+    env.trace[rec.trace_lo..rec.trace_hi].iter().find_map(|e| match e {
+        crate::world::Ev::Note(s) => s.strip_prefix("application calls set_datarate(").and_then(|r| r.split(')').next()).and_then(|n| n.parse().ok()),
+        _ => None,
+    })
+}
